@@ -94,6 +94,7 @@ func (w wval) Size() int { return w.W }
 type store struct {
 	mu       sync.Mutex
 	weighted int // > 0: values are wval with weights 1..weighted
+	nilEvery int // > 0: every nilEvery-th stored version is presented as the nil value
 	m        map[string]int
 	nextVer  int
 	log      []storeEvent
@@ -151,6 +152,9 @@ func (s *store) enter(cb, key string) (fail bool, exit func()) {
 
 // wrap turns a stored version into the value the callbacks hand to the group.
 func (s *store) wrap(ver int) interface{} {
+	if s.nilEvery > 0 && ver/1000%s.nilEvery == 0 {
+		return nil // the store's value for this version is nil: a value like any other
+	}
 	if s.weighted > 0 {
 		return wval{Ver: ver, W: 1 + (ver/1000*7+ver)%s.weighted}
 	}
@@ -418,6 +422,11 @@ func streamCase(k *engine.Case) {
 		st.weighted = g.lruCap + 2
 		k.Logf("values are weighted 1..%d (LRU capacity %d)", st.weighted, g.lruCap)
 		k.Count("streams_with_weighted_values", 1)
+	}
+	if r.Intn(4) == 0 {
+		st.nilEvery = 2 + r.Intn(2)
+		k.Logf("every %d-th stored version is the nil value", st.nilEvery)
+		k.Count("streams_with_nil_values", 1)
 	}
 	d := engine.NewDriver(Q, k)
 	defer func() {
